@@ -557,8 +557,22 @@ class UncertainNumber:
         """divide two uncertain numbers"""
         return self.bin_ops(other, operator.truediv)
 
+    def rbin_ops(self, other, ops):
+        """plain number on the left: ``other ops self``"""
+        new_cons = ops(other, self._construct)
+        new_un = UncertainNumber.fromConstruct(new_cons)
+        return pass_down_units(self, other, ops, new_un, reflected=True)
+
+    def __rsub__(self, other):
+        return self.rbin_ops(other, operator.sub)
+
     def __rtruediv__(self, other):
-        return self.__truediv__(other)
+        return self.rbin_ops(other, operator.truediv)
+
+    def __neg__(self):
+        new_un = UncertainNumber.fromConstruct(-self._construct)
+        new_un.physical_quantity = -self._physical_quantity
+        return new_un
 
     def __pow__(self, other):
         """power of two uncertain numbers"""
@@ -747,7 +761,7 @@ class ParamSpecification:
             self._true_type = "pbox"
 
 
-def pass_down_units(a, b, ops, t):
+def pass_down_units(a, b, ops, t, reflected=False):
     """pass down the unit of the uncertain number
 
     args:
@@ -755,11 +769,15 @@ def pass_down_units(a, b, ops, t):
         - b: the second uncertain number
         - ops: the operation to be performed
         - t: the result uncertain number of the operation
+        - reflected: the plain number `b` is the left operand (``b ops a``)
     """
     if is_un(b) == 0:
-        try:
-            new_q = ops(a._physical_quantity, b * a._physical_quantity.units)
-        except Exception:
+        # a bare number takes the operand's unit in sums and is dimensionless in products, quotients and powers
+        if ops in (operator.add, operator.sub):
+            b = b * a._physical_quantity.units
+        if reflected:
+            new_q = ops(b, a._physical_quantity)
+        else:
             new_q = ops(a._physical_quantity, b)
     elif is_un(b) == 1:
         new_q = ops(a._physical_quantity, b._physical_quantity)
